@@ -191,29 +191,36 @@ func (info *Info) Encode() (hheaData []byte, hmtxData []byte) {
 			panic("len(info.GlyphExtents) != len(info.Widths)")
 		}
 		first = true
+		minRSB := 0 // computed as int, so that single glyphs cannot overflow
 		for i, ext := range info.GlyphExtents {
 			if ext.IsZero() {
 				continue
 			}
-			rsb := info.Widths[i] - ext.URx
-			if first || rsb < hhea.MinRightSideBearing {
-				hhea.MinRightSideBearing = rsb
+			// rsb = aw - (lsb + xMax - xMin)
+			rsb := int(info.Widths[i]) - (int(lsbs[i]) + int(ext.URx) - int(ext.LLx))
+			if first || rsb < minRSB {
+				minRSB = rsb
 			}
 			first = false
 		}
+		hhea.MinRightSideBearing = funit.Int16(min(max(minRSB, math.MinInt16), math.MaxInt16))
 	}
 
 	if info.GlyphExtents != nil {
 		first = true
-		for _, ext := range info.GlyphExtents {
+		maxExtent := 0
+		for i, ext := range info.GlyphExtents {
 			if ext.IsZero() {
 				continue
 			}
-			if first || ext.URx > hhea.XMaxExtent {
-				hhea.XMaxExtent = ext.URx
+			// extent = lsb + (xMax - xMin)
+			extent := int(lsbs[i]) + int(ext.URx) - int(ext.LLx)
+			if first || extent > maxExtent {
+				maxExtent = extent
 			}
 			first = false
 		}
+		hhea.XMaxExtent = funit.Int16(min(max(maxExtent, math.MinInt16), math.MaxInt16))
 	}
 
 	buf := bytes.NewBuffer(make([]byte, 0, hheaLength))
